@@ -601,7 +601,7 @@ class AndNotMatcher(BiMatcher):
     def _find_next(self):
         pos = self.a
         neg = self.b
-        if not neg.is_active():
+        if not (pos.is_active() and neg.is_active()):
             return
         pos_id = pos.id()
         r = False
